@@ -4,20 +4,22 @@
 
 use super::*;
 use crate::array::ArrayImpl;
-use crate::types::DataValue;
+use crate::types::{DataType, DataValue};
 
 /// Returns all rules of expression simplification.
 #[rustfmt::skip]
 pub fn rules() -> Vec<Rewrite> { vec![
-    rw!("add-zero";  "(+ ?a 0)" => "?a"),
+    // (the rules that drop or add an INT literal apply only if the data type of the expression is kept:
+    //  `smallint_column + 0` is an INT)
+    rw!("add-zero";  "(+ ?a 0)" => "?a" if keeps_type_of("?a")),
     rw!("add-comm";  "(+ ?a ?b)" => "(+ ?b ?a)"),
     rw!("add-assoc"; "(+ ?a (+ ?b ?c))" => "(+ (+ ?a ?b) ?c)"),
-    rw!("add-same";  "(+ ?a ?a)" => "(* ?a 2)"),
+    rw!("add-same";  "(+ ?a ?a)" => "(* ?a 2)" if is_wider_than_smallint("?a")),
     rw!("add-neg";   "(+ ?a (- ?b))" => "(- ?a ?b)"),
 
     // (no `(* ?a 0) => 0`, `(- ?a ?a) => 0`, `(= ?a ?a) => true` ...: they are wrong when ?a is NULL)
-    rw!("mul-one";   "(* ?a 1)" => "?a"),
-    rw!("mul-minus"; "(* ?a -1)" => "(- ?a)"),
+    rw!("mul-one";   "(* ?a 1)" => "?a" if keeps_type_of("?a")),
+    rw!("mul-minus"; "(* ?a -1)" => "(- ?a)" if keeps_type_of("?a")),
     rw!("mul-comm";  "(* ?a ?b)"        => "(* ?b ?a)"),
     rw!("mul-assoc"; "(* ?a (* ?b ?c))" => "(* (* ?a ?b) ?c)"),
 
@@ -27,15 +29,15 @@ pub fn rules() -> Vec<Rewrite> { vec![
     rw!("neg-neg";    "(- (- ?a))" => "?a"),
     rw!("neg-sub";    "(- (- ?a ?b))" => "(- ?b ?a)"),
 
-    rw!("sub-zero";   "(- ?a 0)" => "?a"),
-    rw!("zero-sub";   "(- 0 ?a)" => "(- ?a)"),
+    rw!("sub-zero";   "(- ?a 0)" => "?a" if keeps_type_of("?a")),
+    rw!("zero-sub";   "(- 0 ?a)" => "(- ?a)" if keeps_type_of("?a")),
 
-    rw!("div-cancel"; "(/ ?a ?a)" => "1" if is_not_zero("?a")),
+    rw!("div-cancel"; "(/ ?a ?a)" => "1" if is_not_zero("?a") if is_int("?a")),
 
     rw!("mul-add-distri";   "(* ?a (+ ?b ?c))" => "(+ (* ?a ?b) (* ?a ?c))"),
     rw!("mul-add-factor";   "(+ (* ?a ?b) (* ?a ?c))" => "(* ?a (+ ?b ?c))"),
 
-    rw!("recip-mul-div"; "(* ?x (/ 1 ?x))" => "1" if is_not_zero("?x")),
+    rw!("recip-mul-div"; "(* ?x (/ 1 ?x))" => "1" if is_not_zero("?x") if is_int("?x")),
 
     rw!("eq-comm";   "(=  ?a ?b)" => "(=  ?b ?a)"),
     rw!("ne-comm";   "(<> ?a ?b)" => "(<> ?b ?a)"),
@@ -175,6 +177,54 @@ pub fn union_constant(egraph: &mut EGraph, id: Id) {
         egraph.union(id, added);
         // prune other nodes
         egraph[id].nodes.retain(|n| n.is_leaf());
+    }
+}
+
+/// Returns the data type of the expressions in class `id`.
+///
+/// The optimizer's analysis does not carry types, so it is derived from the members of the class
+/// on demand (from the first member that can be typed: a class may contain itself, `a = a + 0`).
+fn type_of(egraph: &EGraph, id: Id, depth: usize) -> type_::Type {
+    let mut type_ = Err(TypeError::Unavailable("expression too deep".into()));
+    if depth > 32 {
+        return type_;
+    }
+    for enode in &egraph[id].nodes {
+        type_ = type_::analyze_type(
+            enode,
+            |i| type_of(egraph, *i, depth + 1),
+            |i| egraph[*i].nodes[0].clone(),
+            &egraph.analysis.catalog,
+        );
+        if type_.is_ok() {
+            break;
+        }
+    }
+    type_
+}
+
+/// Returns true if the matched expression has the same data type as `var`.
+fn keeps_type_of(var: &str) -> impl Fn(&mut EGraph, Id, &Subst) -> bool {
+    let var = var.parse::<Var>().unwrap();
+    move |egraph, id, subst| {
+        matches!(
+            (type_of(egraph, id, 0), type_of(egraph, subst[var], 0)),
+            (Ok(whole), Ok(part)) if whole == part
+        )
+    }
+}
+
+/// Returns true if `var` is of type INT.
+fn is_int(var: &str) -> impl Fn(&mut EGraph, Id, &Subst) -> bool {
+    let var = var.parse::<Var>().unwrap();
+    move |egraph, _, subst| type_of(egraph, subst[var], 0) == Ok(DataType::Int32)
+}
+
+/// Returns true if `var` is a number that an INT literal does not widen.
+fn is_wider_than_smallint(var: &str) -> impl Fn(&mut EGraph, Id, &Subst) -> bool {
+    let var = var.parse::<Var>().unwrap();
+    move |egraph, _, subst| {
+        matches!(type_of(egraph, subst[var], 0), Ok(t) if t.is_number() && t != DataType::Int16)
     }
 }
 
